@@ -42,6 +42,7 @@ type Sched struct {
 	OnlyPark map[string]bool   // when set: only these points park; the others pass through
 	mapIDs   map[string]int    // type map identity -> small id
 	MapsOf   map[string]map[int]bool // actor -> ids of the type maps it encoded with
+	ParkOnce map[string]string       // actor -> a point at which it parks once more (then the entry is removed)
 }
 
 func goid() int64 {
@@ -83,7 +84,9 @@ func (s *Sched) Hook(point string, subject any) {
 		s.mu.Unlock()
 		return
 	}
-	if s.OnlyPark != nil && !s.OnlyPark[point] {
+	if s.OnlyPark != nil && !s.OnlyPark[point] && s.ParkOnce[actor] == point {
+		delete(s.ParkOnce, actor) // park here, this once
+	} else if s.OnlyPark != nil && !s.OnlyPark[point] {
 		if point == "encode.enter" {
 			key := fmt.Sprintf("%p", subject)
 			if s.mapIDs == nil {
@@ -289,7 +292,10 @@ func PlaySched(beh M) ([]M, error) {
 		x.Log.Append(mem.Ev{"k": "served", "err": e})
 	}()
 
-	// connections: startup outside schedule control (no hook is on that path)
+	// connections: startup, and a prepared portal "p", outside schedule control
+	s.mu.Lock()
+	s.free = true
+	s.mu.Unlock()
 	conns := map[string]*mem.Conn{}
 	nconn := 0
 	for _, cv := range L(cfgS, "conns") {
@@ -306,11 +312,34 @@ func PlaySched(beh M) ([]M, error) {
 			conns[fmt.Sprintf("c%d", nconn)] = c
 		}
 	}
-	// one scripted query used by every command
+	// one scripted statement used by every command: as a simple Query, or as Execute of a portal
+	// bound during setup (an extended-protocol command is a command like any other for Close)
 	q := M{"id": 1, "parse": "ok", "stmts": []any{M{"id": 1, "cols": []any{}, "oids": []any{},
 		"prog": []any{M{"op": "gate", "p": "h.enter"}, M{"op": "complete", "tag": "OK"}, M{"op": "ret", "r": "nil"}}}}}
 	x.scripts["q1"] = q
-	qbytes := pgw.Query("q1")
+	for _, c := range conns {
+		c.Send(pgw.Parse("s", "q1", nil))
+		c.Send(pgw.Bind("p", "s", nil, nil, nil))
+		c.Send(pgw.Sync())
+		if _, err := c.WaitQuiet(WaitTimeout); err != nil {
+			return nil, fmt.Errorf("sched: portal setup failed")
+		}
+	}
+	s.mu.Lock()
+	s.free = false
+	s.mu.Unlock()
+	ncmd := 0
+	cmdBytes := map[string][]byte{}
+	nextCmd := func(a string) []byte {
+		if b, ok := cmdBytes[a]; ok { // the rest of a message delivered in two parts
+			return b
+		}
+		ncmd++
+		if (ncmd+len(a)+I(beh, "_i"))%2 == 0 {
+			return pgw.Execute("p", 0)
+		}
+		return pgw.Query("q1")
+	}
 	start := len(x.Log.Events())
 	x.Log.Append(mem.Ev{"k": "sched-start"})
 
@@ -372,7 +401,7 @@ func PlaySched(beh M) ([]M, error) {
 				break // the real execution has left the model's schedule: the connection is not waiting for input
 			}
 			x.Log.Append(mem.Ev{"k": "rel", "a": a})
-			conns[a].Send(qbytes)
+			conns[a].Send(nextCmd(a))
 			res = s.settle(a)
 		case "DeliverPart":
 			if !conns[a].IsIdle() || partial[a] {
@@ -380,7 +409,8 @@ func PlaySched(beh M) ([]M, error) {
 			}
 			partial[a] = true
 			x.Log.Append(mem.Ev{"k": "env", "act": "part", "a": a})
-			conns[a].Send(qbytes[:3])
+			cmdBytes[a] = nextCmd(a)
+			conns[a].Send(cmdBytes[a][:3])
 			if _, err := conns[a].WaitQuiet(s.StepTimeout); err != nil {
 				res = "stuck"
 			}
@@ -390,7 +420,8 @@ func PlaySched(beh M) ([]M, error) {
 			}
 			partial[a] = false
 			x.Log.Append(mem.Ev{"k": "rel", "a": a})
-			conns[a].Send(qbytes[3:])
+			conns[a].Send(cmdBytes[a][3:])
+			delete(cmdBytes, a)
 			res = s.settle(a)
 		case "CLoop":
 			res = step(a) // ends parked at the next hook, or reading the next message
